@@ -1189,9 +1189,12 @@ class Step(Node):
         for label, state, hash_json, detached, is_dynamic in self.db.execute(sql, data):
             yield PathRecord(label, FileState(state), bool(detached), bool(is_dynamic), hash_json)
 
-    def inp_paths(self, *, dynamic: bool | None = None) -> Iterator[PathRecord]:
-        """Iterate over input files of this step."""
-        yield from self._paths("source", dynamic=dynamic)
+    def inp_paths(self, *, dynamic: bool | None = None, raw: bool = False) -> Iterator[PathRecord]:
+        """Iterate over input files of this step.
+
+        With `raw=True`, inputs whose node is detached are included as well, see `_paths`.
+        """
+        yield from self._paths("source", dynamic=dynamic, raw=raw)
 
     def out_paths(self, *, dynamic: bool | None = None) -> Iterator[PathRecord]:
         """Iterate over output files of this step."""
